@@ -244,7 +244,19 @@ func c03Doctor(c *mc.Ctx) {
 	if err != nil {
 		panic(err)
 	}
-	if _, err := commitTable(db, rs, "main", bad, nil, 0); err != nil {
+	// the branch has two commits, both with a corrupted table: the resolver goes through both issues
+	// with one sorter (Reset in between)
+	rows2 := [][]string{{"p", "vp"}, {"q", "vq"}, {"r", "vr"}, {"s", "vs"}}
+	corrupted2 := [][]string{rows2[0], rows2[0], rows2[1], rows2[2], rows2[3]}
+	bad2, err := saveRawTable(db, []string{"k", "v"}, pk, corrupted2, 3, len(corrupted2))
+	if err != nil {
+		panic(err)
+	}
+	first, err := commitTable(db, rs, "", bad2, nil, 0)
+	if err != nil {
+		panic(err)
+	}
+	if _, err := commitTable(db, rs, "main", bad, [][]byte{first}, 1); err != nil {
 		panic(err)
 	}
 	issues, err := diagnose(db, rs)
@@ -288,6 +300,23 @@ func c03Doctor(c *mc.Ctx) {
 		c.Fail("doctor-rows", "table produced by doctor resolve: %s; %s", msg, desc)
 		return
 	}
+	if len(com.Parents) != 1 {
+		c.Fail("doctor-error", "head commit has %d parents after resolve, expected 1; %s", len(com.Parents), desc)
+		return
+	}
+	if com2, err := objects.GetCommit(db, com.Parents[0]); err != nil {
+		c.Fail("doctor-error", "parent commit unreadable after resolve: %v; %s", err, desc)
+		return
+	} else {
+		if msg := model.CheckTable(db, com2.Table, 3, true); msg != "" {
+			c.Fail("doctor-structure", "table of the parent commit produced by doctor resolve: %s; %s", msg, desc)
+			return
+		}
+		if msg := checkStoredRows(db, com2.Table, []string{"k", "v"}, ipk, rows2); msg != "" {
+			c.Fail("doctor-rows", "table of the parent commit produced by doctor resolve (same resolver): %s; %s", msg, desc)
+			return
+		}
+	}
 	c.Outcome("resolved")
 	c.Nontrivial(desc)
 	if c.WantSample() {
@@ -300,7 +329,7 @@ func init() {
 		ID:    "C03",
 		Level: "exploration",
 		Rule: "producer ingest, scaled block size 3 (build-time overlay of the literal 255): every key subset of a 10-key universe (1024 tables of 0..10 rows = 0..4 blocks, incl. the all-empty first row), crossed with up to d deviations over {keyless, descending file order, a duplicate key, run size, workers 1..3, delimiter}; " +
-			"producer ingest, composite keys: 3..4-column tables of 0..5 rows under every ordered key subset of 3 columns (all 6 orders of a 3-column key); producer ingest, real block size: 0,1,2,254,255,256,509,510,511,765 rows x key {[0], none, [1,0]} x all-empty first row x run size x workers; producer doctor: every table of 1..7 rows with each row stored twice is diagnosed and resolved. " +
+			"producer ingest, composite keys: 3..4-column tables of 0..5 rows under every ordered key subset of 3 columns (all 6 orders of a 3-column key); producer ingest, real block size: 0,1,2,254,255,256,509,510,511,765 rows x key {[0], none, [1,0]} x all-empty first row x run size x workers; producer doctor: every table of 1..7 rows with each row stored twice, as the head of a branch whose parent commit carries another corrupted table (one resolver, its sorter reused), keyed and keyless, is diagnosed and resolved. " +
 			"Every produced table is checked by an independent structural oracle (row count, full blocks, strictly increasing keys, block stored under hash of content, block-index entries = hash(key)||hash(row) recomputed by an independent encoder, sorted-offset permutation, lookup of every key, table index = first keys, profile) " +
 			"and by the repository's doctor.Diagnose (must report nothing). Merge-result and wire-receipt producers run the same oracle inside C05 and C07. non-trivial = a table was produced; distinct by case description",
 		Assumptions: []string{"the scaled configuration changes only the literal block size in sorter.go, block.go, table.go (self-checked: blocks of exactly 3 rows are demanded by the oracle)", "tables beyond 4 blocks are not enumerated"},
